@@ -660,6 +660,12 @@ Definition init_sworld : sworld := mkS [] 0 [[]].
 
 Definition entry_eqb (a b : entry) : bool := vals_eqb (fst a) (fst b) && Nat.eqb (snd a) (snd b).
 Definition entry_in (e : entry) (l : list entry) : bool := existsb (entry_eqb e) l.
+Fixpoint entries_eqb (a b : list entry) : bool :=
+  match a, b with
+  | [], [] => true
+  | x :: a', y :: b' => entry_eqb x y && entries_eqb a' b'
+  | _, _ => false
+  end.
 Fixpoint nodup_keys (l : list entry) : bool :=
   match l with
   | [] => true
@@ -711,7 +717,7 @@ End SpecOk.
 (* runs the next critical section of that thread.                                              *)
 (* ------------------------------------------------------------------------------------------ *)
 
-Inductive creq := QGet (t : values) | QDel (t : values) | QPartial (q : values -> bool) | QReset.
+Inductive creq := QGet (t : values) | QDel (t : values) | QPartial (q : values -> bool) | QReset | QCollect.
 
 Record cthread := mkT { t_pending : bool; t_todo : list creq }.  (* pending: first section of head request done, missed *)
 Record cevent := mkE { e_tid : nat; e_req : creq; e_res : result }.
@@ -754,6 +760,8 @@ Definition cstep (c : cstate) (tid : nat) : cstate * option cevent :=
         (mkC st' (set_nth (c_thr c) tid (mkT false rest)), Some (mkE tid q (RNum n)))
       | QReset =>
         (mkC (reset st) (set_nth (c_thr c) tid (mkT false rest)), Some (mkE tid q RUnit))
+      | QCollect =>   (* the read lock is held until the last child has been sent: ONE section *)
+        (mkC st (set_nth (c_thr c) tid (mkT false rest)), Some (mkE tid q (RColl (collect st))))
       end
     end
   end.
@@ -782,6 +790,7 @@ Definition sreq (s : sworld) (q : creq) : sres * sworld :=
   | QPartial p => (SNum (Z.of_nat (length (filter (fun e => p (fst e)) (s_map s)))),
                    mkS (filter (fun e => negb (p (fst e))) (s_map s)) (s_next s) (s_views s))
   | QReset => (SUnit, mkS [] (s_next s) (s_views s))
+  | QCollect => (SColl (sort_by_id (s_map s)), s)   (* the children of ONE state of the map *)
   end.
 
 Definition sres_eq (s : sres) (r : result) : bool :=
@@ -790,6 +799,7 @@ Definition sres_eq (s : sres) (r : result) : bool :=
   | SBool a, RBool b => Bool.eqb a b
   | SNum a, RNum b => a =? b
   | SUnit, RUnit => true
+  | SColl a, RColl b => entries_eqb a b
   | _, _ => false
   end.
 
